@@ -25,7 +25,9 @@ func exhaustiveSets(depth int) [][]string {
 		// a lock / unlock / add / remove-all that the underlying agent refuses (it still answers everything else)
 		"lock=7077!fail:lock", "unlock=7077!fail:unlock", "add=" + c4 + ":63!fail:add", "removeall!fail:removeall",
 		// closing the shim (refused while locked; afterwards every request fails)
-		"close"}
+		"close",
+		// a listing / removal that fails under every operation that needs one
+		"signers!fail:list", "sign=k1!fail:list", "sign=" + c1 + "!fail:list", "remove=k1!fail:remove", "remove=" + c1 + "!fail:remove", "remove=" + c1 + "!fail:list", "sign=k1!fail:sign"}
 	starts := []string{"-", "k1:-", "k1:-," + c1 + ":63", "k1:-," + c2 + ":-,k2:6b"}
 	var seqs [][]string
 	var rec func(prefix []string)
